@@ -138,7 +138,12 @@ int main(int argc, char** argv)
             al = (k == "malloc") ? (TestMemoryAllocator*) &mallocAlloc : (TestMemoryAllocator*) &newAlloc;
             char* r = det->reallocMemory(al, addr_of(a), sz, "file.cpp", (size_t) ln, separate);
             if (rf->count == 0) {
-                if (r != addr_of(a2)) { fprintf(out, "{\"op\":\"harness-error\",\"what\":\"realloc returned other address\"}\n"); break; }
+                // the address is the underlying allocator's choice; what came back is an observation (a detector that answers a
+                // realloc without consulting the platform realloc returns the old address): log the address actually returned
+                int got = -1;
+                for (int i = 0; i < NADDR && got < 0; i++) if (r == addr_of(i)) got = i;
+                if (got < 0) { fprintf(out, "{\"op\":\"harness-error\",\"what\":\"realloc returned an address outside the arena\"}\n"); break; }
+                a2 = got;
                 kindOf.erase(a); kindOf[a2] = k;
             }
             g_next = NULL;
